@@ -334,6 +334,66 @@ def r_strsort(prog, tier):
     return obs, {}
 
 
+def r_fmtdata(prog, tier):
+    """A %-format string is assembled from data: `(text + " ||| %s") % x` interprets the `%` characters of the text."""
+    obs = []
+    n = 0
+    from ..core import _unique_assign
+
+    def parts(e):
+        if isinstance(e, ast.BinOp) and isinstance(e.op, ast.Add):
+            return parts(e.left) + parts(e.right)
+        return [e]
+    for mod in MODULES:
+        for f in sorted(prog.modules[mod].funcs.values(), key=lambda x: x.fq):
+            for c in walk_own(f.node):
+                if not (isinstance(c, ast.BinOp) and isinstance(c.op, ast.Mod)):
+                    continue
+                left = c.left
+                if isinstance(left, ast.Name) and left.id in f.locals:
+                    v = _unique_assign(f, left.id)
+                    if isinstance(v, ast.AST):
+                        left = v
+                ps = parts(left)
+                if len(ps) < 2:
+                    continue
+                lits = [p_ for p_ in ps if isinstance(p_, ast.Constant) and isinstance(p_.value, str)]
+                data = [p_ for p_ in ps if not isinstance(p_, ast.Constant)]
+                if data and any('%' in p_.value.replace('%%', '') for p_ in lits):
+                    n += 1
+                    obs.append(Ob('R-FMTDATA', f.fq, 'format strings are literals: `%s`' % unparse(c)[:60], False,
+                                  'the format string is assembled from `%s` and a literal: a `%%` in that text is read as a '
+                                  'conversion (`100%%` raises, `%%%%` loses a character)' % unparse(data[0])[:40],
+                                  construct='fmtdata:' + unparse(c)[:60], line=c.lineno))
+    obs.append(Ob('R-FMTDATA', 'package', 'scan for format strings assembled from data covered every function', True,
+                  '%d found' % n, construct='fmtdata-scan', nontrivial=False))
+    return obs, {}
+
+
+def r_counterunion(prog, tier):
+    """`table |= Counter(...)`: the union of counters keeps the larger count, it does not add."""
+    obs = []
+    n = 0
+    for mod in MODULES:
+        for f in sorted(prog.modules[mod].funcs.values(), key=lambda x: x.fq):
+            for c in walk_own(f.node):
+                hit = None
+                if isinstance(c, ast.AugAssign) and isinstance(c.op, ast.BitOr) and isinstance(c.value, ast.Call) \
+                        and unparse(c.value.func) in ('Counter', 'collections.Counter'):
+                    hit = c
+                if isinstance(c, ast.BinOp) and isinstance(c.op, ast.BitOr) and any(
+                        isinstance(x, ast.Call) and unparse(x.func) in ('Counter', 'collections.Counter') for x in (c.left, c.right)):
+                    hit = c
+                if hit is not None:
+                    n += 1
+                    obs.append(Ob('R-COUNTERUNION', f.fq, 'counts are added: `%s`' % unparse(hit)[:60], False,
+                                  '`|` on counters is the union (the LARGER of the two counts per key), not the sum: a word seen '
+                                  'twice with the same tag still counts once', construct='cunion:' + unparse(hit)[:60], line=hit.lineno))
+    obs.append(Ob('R-COUNTERUNION', 'package', 'scan for counter unions covered every function', True, '%d found' % n,
+                  construct='cunion-scan', nontrivial=False))
+    return obs, {}
+
+
 def r_leakvar(prog, tier):
     """Inside an outer loop, the variable of a finished inner `for` loop is read after that loop and is bound nowhere
     else: it holds the leftover of the last inner iteration - or, when the inner loop did not run for this outer
@@ -416,6 +476,7 @@ def r_leakvar(prog, tier):
 FIXTURE = {
     'transform': """
 from . import trees
+from collections import Counter
 def fx(tree, **params):
     keep = params['keep']
     if tree.data['label'] in keep:
@@ -445,6 +506,10 @@ def fx(tree, **params):
         byn[c.data['num']] = c
     for k in sorted(byn.keys(), key=str):
         pass
+    seen = Counter()
+    seen |= Counter([lab])
+    line = lab + " ||| %s"
+    out = line % idx
     return tree
 TRANSFORMATIONS = [fx]
 """,
@@ -459,8 +524,13 @@ def _with_fixture(name, fn):
     def run(prog, tier):
         if name not in _FIXTURE_DONE:
             from ..core import Program, AnalysisError
-            fx = Program(sources=FIXTURE)
-            got = [o for o in fn(fx, tier)[0] if not o.ok]
+            try:
+                fx = Program(sources=FIXTURE)
+                got = [o for o in fn(fx, tier)[0] if not o.ok]
+            except AnalysisError:
+                raise
+            except Exception as e:
+                raise AnalysisError('rule %s cannot be run on its fixture (%s: %s): the checker is broken' % (name, type(e).__name__, e))
             if not got:
                 raise AnalysisError('rule %s no longer fires on its fixture: the checker is broken' % name)
             _FIXTURE_DONE[name] = len(got)
@@ -479,3 +549,5 @@ r_staleacc = _with_fixture('R-STALEACC', r_staleacc)
 r_zerotable = _with_fixture('R-ZEROTABLE', r_zerotable)
 r_leakvar = _with_fixture('R-LEAKVAR', r_leakvar)
 r_strsort = _with_fixture('R-STRSORT', r_strsort)
+r_fmtdata = _with_fixture('R-FMTDATA', r_fmtdata)
+r_counterunion = _with_fixture('R-COUNTERUNION', r_counterunion)
